@@ -28,6 +28,8 @@ use zverif::seq::{Seq, SeqSpec};
 use zverif::{check, Fail, Tier};
 
 use zipora::concurrency::ParallelLoudsTrie;
+use zipora::fsa::dawg::NestedTrieDawg;
+use zipora::fsa::traits::PrefixIterable;
 use zipora::fsa::{
     CompressedSparseTrie, ConcurrencyLevel, DoubleArrayTrie, DoubleArrayTrieConfig, FiniteStateAutomaton, NestedLoudsTrie, NestingConfig,
     SimpleDawg, Trie, ZiporaTrie, ZiporaTrieConfig,
@@ -103,9 +105,41 @@ pub trait TrieLike {
     fn longest_prefix(&self, _q: &[u8]) -> Option<Option<usize>> {
         None
     }
+    /// (coverage audit) further enumeration entry points: `(name, result)` of `iter_all()` (`p = None`) /
+    /// `iter_prefix(p)`, inherent and through the `PrefixIterable` trait; empty = not offered
+    fn iter_views(&self, _p: Option<&[u8]>) -> Vec<(&'static str, Vec<Vec<u8>>)> {
+        Vec::new()
+    }
+    /// (coverage audit) `Clone`; `None` = not offered
+    fn clone_box(&self) -> Option<Box<dyn TrieLike>> {
+        None
+    }
+    /// (coverage audit) `shrink_to_fit()` (a maintenance operation that must not change the key set); false = not offered
+    fn shrink_to_fit(&mut self) -> bool {
+        false
+    }
 }
 
 impl TrieLike for ZiporaTrie {
+    fn iter_views(&self, p: Option<&[u8]>) -> Vec<(&'static str, Vec<Vec<u8>>)> {
+        match p {
+            None => vec![
+                ("iter_all()", ZiporaTrie::iter_all(self).collect()),
+                ("PrefixIterable::iter_all()", PrefixIterable::iter_all(self).collect()),
+            ],
+            Some(p) => vec![
+                ("iter_prefix", ZiporaTrie::iter_prefix(self, p).collect()),
+                ("PrefixIterable::iter_prefix", PrefixIterable::iter_prefix(self, p).collect()),
+            ],
+        }
+    }
+    fn clone_box(&self) -> Option<Box<dyn TrieLike>> {
+        Some(Box::new(self.clone()))
+    }
+    fn shrink_to_fit(&mut self) -> bool {
+        ZiporaTrie::shrink_to_fit(self);
+        true
+    }
     fn insert(&mut self, k: &[u8]) -> Result<(), String> {
         ZiporaTrie::insert(self, k).map_err(|e| e.to_string())
     }
@@ -160,6 +194,50 @@ macro_rules! wrapper_trielike {
 wrapper_trielike!(DoubleArrayTrie);
 wrapper_trielike!(NestedLoudsTrie<RankSelectInterleaved256>);
 wrapper_trielike!(CompressedSparseTrie);
+
+/// (coverage audit) `DoubleArrayTrie` with its `shrink_to_fit()` offered as a mutator.
+pub struct DatShrink(pub DoubleArrayTrie);
+impl TrieLike for DatShrink {
+    fn insert(&mut self, k: &[u8]) -> Result<(), String> {
+        self.0.insert(k).map_err(|e| e.to_string())
+    }
+    fn contains(&self, k: &[u8]) -> bool {
+        self.0.contains(k) && self.0.lookup(k).is_some()
+    }
+    fn len(&self) -> Option<usize> {
+        Some(self.0.len())
+    }
+    fn accepts(&self, k: &[u8]) -> Option<bool> {
+        Some(FiniteStateAutomaton::accepts(&self.0, k))
+    }
+    fn longest_prefix(&self, q: &[u8]) -> Option<Option<usize>> {
+        Some(FiniteStateAutomaton::longest_prefix(&self.0, q))
+    }
+    fn shrink_to_fit(&mut self) -> bool {
+        self.0.shrink_to_fit();
+        true
+    }
+}
+
+/// (coverage audit) `NestedTrieDawg` (src/fsa/dawg.rs) through its `Trie` / `FiniteStateAutomaton` impls.
+pub struct Dawg(pub NestedTrieDawg);
+impl TrieLike for Dawg {
+    fn insert(&mut self, k: &[u8]) -> Result<(), String> {
+        Trie::insert(&mut self.0, k).map(|_| ()).map_err(|e| e.to_string())
+    }
+    fn contains(&self, k: &[u8]) -> bool {
+        Trie::contains(&self.0, k)
+    }
+    fn len(&self) -> Option<usize> {
+        Some(Trie::len(&self.0))
+    }
+    fn accepts(&self, k: &[u8]) -> Option<bool> {
+        Some(self.0.accepts(k))
+    }
+    fn longest_prefix(&self, q: &[u8]) -> Option<Option<usize>> {
+        Some(self.0.longest_prefix(q))
+    }
+}
 
 /// The same wrapper driven through its `Trie` trait impl (`Trie::insert` / `Trie::contains` / `Trie::len`).
 pub struct ViaTrait<T: Trie>(pub T);
@@ -216,6 +294,22 @@ impl TrieLike for Par {
     }
 }
 
+/// (coverage audit) the bulk entry points of ParallelLoudsTrie: `bulk_insert([k])` and `parallel_contains([k])`.
+pub struct ParBulk(pub ParallelLoudsTrie);
+impl TrieLike for ParBulk {
+    fn insert(&mut self, k: &[u8]) -> Result<(), String> {
+        // the key twice in one batch: the second occurrence is a re-insertion
+        futures::executor::block_on(self.0.bulk_insert(vec![k.to_vec(), k.to_vec()])).map(|_| ()).map_err(|e| e.to_string())
+    }
+    fn contains(&self, k: &[u8]) -> bool {
+        let r = futures::executor::block_on(self.0.parallel_contains(vec![k.to_vec(), k.to_vec()]));
+        r.len() == 2 && r[0] && r[1]
+    }
+    fn len(&self) -> Option<usize> {
+        Some(futures::executor::block_on(self.0.len()))
+    }
+}
+
 // ---------------------------------------------------------------------------------------------
 // keys
 
@@ -256,6 +350,37 @@ fn k3() -> Vec<Vec<u8>> {
     vec![b"".to_vec(), b"a".to_vec(), b"ab".to_vec()]
 }
 
+
+// ---- coverage audit: additional alphabets ---------------------------------------------------
+
+/// "arbitrary byte values": keys that *start* with 0x00 / 0xff / 0x80, two keys that share a prefix through a 0x00 byte,
+/// 0x00 0x00 (in the double-array storage the child of state 1 on symbol 0 is state 1 itself).
+fn k_bytes() -> Vec<Vec<u8>> {
+    vec![b"\0".to_vec(), b"\0\0".to_vec(), b"\0\xff".to_vec(), b"\xff\0".to_vec(), b"\xff\xff".to_vec(), b"\x80".to_vec(), b"a\0".to_vec(), b"a\0b".to_vec()]
+}
+fn k_bytes_probes() -> Vec<Vec<u8>> {
+    vec![b"\xff".to_vec(), b"\0\0\0".to_vec(), b"a\0a".to_vec(), b"\x80\x80".to_vec(), b"\x7f".to_vec(), b"\0\x01".to_vec()]
+}
+/// Double-array storage: `aa` puts a state on slot 24 + 97 = 121 = 1 + 'x', i.e. on the slot the *root* wants for its child `x`,
+/// and `ab` on 122 = 1 + 'y': inserting `x` / `y` afterwards relocates the root (all first-level states move and every
+/// second-level state has to be re-parented).
+fn k_rootmove() -> Vec<Vec<u8>> {
+    ["aa", "x", "xy", "b", "", "ab", "y"].iter().map(|s| s.as_bytes().to_vec()).collect()
+}
+/// LOUDS record store: one length byte per record, keys longer than 255 bytes are refused.
+fn k_len255() -> Vec<Vec<u8>> {
+    let mut a255b = vec![b'a'; 255];
+    a255b.push(b'b');
+    vec![vec![b'a'; 254], vec![b'a'; 255], vec![b'a'; 256], a255b, vec![b'b'; 255], b"".to_vec()]
+}
+/// LOUDS record store: keys whose bytes look like the record of another key (`[len][bytes]`).
+fn k_recordlike() -> Vec<Vec<u8>> {
+    vec![b"a".to_vec(), b"\x01a".to_vec(), b"\0".to_vec(), b"".to_vec(), b"ab".to_vec(), b"\x02ab".to_vec(), b"\x01a\x01a".to_vec()]
+}
+fn ins_all(keys: &[Vec<u8>]) -> Vec<Op> {
+    keys.iter().map(|k| Op::Insert(k.clone())).collect()
+}
+
 /// Stable printable name of a key (used in operation names, i.e. in witnesses).
 fn kname(k: &[u8]) -> String {
     if k.is_empty() {
@@ -287,6 +412,10 @@ pub enum Op {
     Insert(Vec<u8>),
     InsertId(Vec<u8>),
     Remove(Vec<u8>),
+    /// (coverage audit) replace the trie by `trie.clone()`; the key set must be unchanged
+    CloneSwap,
+    /// (coverage audit) `shrink_to_fit()`; the key set must be unchanged
+    ShrinkToFit,
 }
 
 impl std::fmt::Debug for Op {
@@ -295,6 +424,8 @@ impl std::fmt::Debug for Op {
             Op::Insert(k) => write!(f, "Insert({})", kname(k)),
             Op::InsertId(k) => write!(f, "InsertId({})", kname(k)),
             Op::Remove(k) => write!(f, "Remove({})", kname(k)),
+            Op::CloneSwap => write!(f, "CloneSwap"),
+            Op::ShrinkToFit => write!(f, "ShrinkToFit"),
         }
     }
 }
@@ -331,6 +462,15 @@ pub struct TrieSpec {
     pub depth_quick: usize,
     pub depth_thorough: usize,
     pub note: &'static str,
+    /// (coverage audit) `CloneSwap` / `ShrinkToFit` are in the alphabet (where the type offers them)
+    pub with_clone: bool,
+    pub with_shrink: bool,
+    /// (coverage audit) scripted prefix applied to trie and model in `init` (start state other than the empty trie)
+    pub prefix: Vec<Op>,
+    /// (coverage audit) keys the constructor already put into the trie (`NestedTrieDawg::build_from_keys`)
+    pub built_with: Vec<Vec<u8>>,
+    /// (coverage audit) extra probes for contains/accepts/longest_prefix
+    pub extra_probes: Vec<Vec<u8>>,
 }
 
 impl TrieSpec {
@@ -341,16 +481,32 @@ impl TrieSpec {
                 v.push(extra);
             }
         }
+        for extra in self.extra_probes.iter().chain(self.built_with.iter()) {
+            if !v.contains(extra) {
+                v.push(extra.clone());
+            }
+        }
         v
     }
     fn prefix_probes(&self) -> Vec<Vec<u8>> {
-        vec![b"".to_vec(), b"a".to_vec(), b"ab".to_vec(), b"b".to_vec(), b"\xff".to_vec(), b"zz".to_vec(), vec![b'a'; 64]]
+        let mut v = vec![b"".to_vec(), b"a".to_vec(), b"ab".to_vec(), b"b".to_vec(), b"\xff".to_vec(), b"zz".to_vec(), vec![b'a'; 64]];
+        for extra in &self.extra_probes {
+            if !v.contains(extra) {
+                v.push(extra.clone());
+            }
+        }
+        v
     }
     fn lp_probes(&self) -> Vec<Vec<u8>> {
         let mut v = self.keys.clone();
         for extra in [b"abcz".to_vec(), b"b\0".to_vec(), vec![b'a'; 71]] {
             if !v.contains(&extra) {
                 v.push(extra);
+            }
+        }
+        for extra in self.extra_probes.iter().chain(self.built_with.iter()) {
+            if !v.contains(extra) {
+                v.push(extra.clone());
             }
         }
         v
@@ -385,6 +541,12 @@ impl SeqSpec for TrieSpec {
         if self.with_remove {
             muts.push("remove(k)");
         }
+        if self.with_clone {
+            muts.push("t = t.clone()");
+        }
+        if self.with_shrink {
+            muts.push("shrink_to_fit()");
+        }
         let mut obs = Vec::new();
         if self.views.contains {
             obs.push("contains on K + {ac, abcd, a*69, \\x00}");
@@ -393,24 +555,41 @@ impl SeqSpec for TrieSpec {
             obs.push("len");
         }
         if self.views.enumerate {
-            obs.push("keys() as a set, keys_with_prefix(p) for p in {<empty>, a, ab, b, \\xff, zz, a*64}");
+            obs.push("keys() as a set, keys_with_prefix(p) for p in {<empty>, a, ab, b, \\xff, zz, a*64}, iter_all()/iter_prefix(p) (inherent and PrefixIterable) likewise");
         }
         if self.views.fsa {
             obs.push("accepts on K + absent probes, longest_prefix(q) for q in K + {abcz, b\\x00, a*71}");
         }
+        let mut start = String::new();
+        if !self.built_with.is_empty() {
+            start.push_str(&format!(" starting from an object built from {{{}}}", self.built_with.iter().map(|k| kname(k)).collect::<Vec<_>>().join(", ")));
+        }
+        if !self.prefix.is_empty() {
+            start.push_str(&format!(" after the scripted prefix {:?}", self.prefix));
+        }
+        let mut probes = String::new();
+        if !self.extra_probes.is_empty() {
+            probes = format!("; extra probes {{{}}}", self.extra_probes.iter().map(|k| kname(k)).collect::<Vec<_>>().join(", "));
+        }
         format!(
-            "all histories of <= {} mutators from {{{}}} over K = {{{}}}; observers after every step (each where offered): {}{}",
+            "all histories of <= {} mutators from {{{}}} over K = {{{}}}{}; observers after every step (each where offered): {}{}{}",
             self.depth(tier),
             muts.join(", "),
             self.keys.iter().map(|k| kname(k)).collect::<Vec<_>>().join(", "),
+            start,
             obs.join("; "),
+            probes,
             if self.note.is_empty() { String::new() } else { format!("; {}", self.note) }
         )
     }
     fn init(&self, _scratch: &Path) -> Result<St, Fail> {
         let gag = StderrGag::new();
         let trie = (self.make)().map_err(|e| Fail::new("construct", e))?;
-        Ok(St { trie, model: BTreeSet::new(), _gag: gag })
+        let mut st = St { trie, model: self.built_with.iter().cloned().collect(), _gag: gag };
+        for op in &self.prefix {
+            self.apply(&mut st, op)?;
+        }
+        Ok(st)
     }
     fn ops(&self, _st: &St) -> Vec<Op> {
         let mut v = Vec::new();
@@ -428,6 +607,12 @@ impl SeqSpec for TrieSpec {
             for k in &self.keys {
                 v.push(Op::Remove(k.clone()));
             }
+        }
+        if self.with_clone {
+            v.push(Op::CloneSwap);
+        }
+        if self.with_shrink {
+            v.push(Op::ShrinkToFit);
         }
         v
     }
@@ -447,6 +632,14 @@ impl SeqSpec for TrieSpec {
                 if let Some(Ok(_)) = st.trie.remove(k) {
                     st.model.remove(k);
                 }
+            }
+            Op::CloneSwap => {
+                if let Some(c) = st.trie.clone_box() {
+                    st.trie = c;
+                }
+            }
+            Op::ShrinkToFit => {
+                let _ = st.trie.shrink_to_fit();
             }
         }
         Ok(())
@@ -471,11 +664,20 @@ impl SeqSpec for TrieSpec {
                 let got = set_of(ks);
                 check!(&got == m, "keys", "keys() = {}, model {}", show(&got), show(m));
             }
+            for (what, ks) in t.iter_views(None) {
+                let got = set_of(ks);
+                check!(&got == m, "keys", "{what} = {}, model {}", show(&got), show(m));
+            }
             for p in self.prefix_probes() {
                 if let Some(ks) = t.keys_with_prefix(&p) {
                     let got = set_of(ks);
                     let want: BTreeSet<Vec<u8>> = m.iter().filter(|k| k.starts_with(&p)).cloned().collect();
                     check!(got == want, "keys_with_prefix", "keys_with_prefix({}) = {}, expected {}", kname(&p), show(&got), show(&want));
+                }
+                for (what, ks) in t.iter_views(Some(&p)) {
+                    let got = set_of(ks);
+                    let want: BTreeSet<Vec<u8>> = m.iter().filter(|k| k.starts_with(&p)).cloned().collect();
+                    check!(got == want, "keys_with_prefix", "{what}({}) = {}, expected {}", kname(&p), show(&got), show(&want));
                 }
             }
         }
@@ -513,6 +715,11 @@ fn spec(name: &str, make: Make, keys: Vec<Vec<u8>>, with_remove: bool, views: Vi
         depth_quick: dq,
         depth_thorough: dt,
         note: "",
+        with_clone: false,
+        with_shrink: false,
+        prefix: Vec::new(),
+        built_with: Vec::new(),
+        extra_probes: Vec::new(),
     }
 }
 
@@ -630,5 +837,90 @@ fn main() {
             spec("ParallelLoudsTrie/sequential/contains+prefix", Box::new(|| Ok(Box::new(Par(ParallelLoudsTrie::new())) as Box<dyn TrieLike>)), k4(), false, Views { contains: true, len: false, enumerate: true, fsa: false }, 3, 4),
             PROJ,
         ));
+
+        // =====================================================================================
+        // coverage audit (notes/C05.md "## Coverage audit"): new subjects only, appended; the subjects above are unchanged
+        // except for the additional enumeration observers iter_all()/iter_prefix().
+        const AUDIT: &str = "coverage audit";
+        let dat_new: fn() -> Result<Box<dyn TrieLike>, String> = || Ok(Box::new(DoubleArrayTrie::new()) as Box<dyn TrieLike>);
+        let dat_shrink: fn() -> Result<Box<dyn TrieLike>, String> = || Ok(Box::new(DatShrink(DoubleArrayTrie::new())) as Box<dyn TrieLike>);
+        let with = |mut s: TrieSpec, f: &dyn Fn(&mut TrieSpec)| -> Seq<TrieSpec> {
+            s.note = AUDIT;
+            f(&mut s);
+            Seq(s)
+        };
+        const SETENUM: Views = Views { contains: true, len: true, enumerate: true, fsa: false };
+
+        // ---- (1) byte values: leading 0x00 / 0xff / 0x80, prefixes through 0x00
+        reg.add(with(spec("ZiporaTrie[default]/bytes", zt(cfg_default), k_bytes(), true, ALL, 3, 4), &|s| s.extra_probes = k_bytes_probes()));
+        reg.add(with(spec("ZiporaTrie[sparse_optimized]/bytes", zt(ZiporaTrieConfig::sparse_optimized), k_bytes(), false, ALL, 4, 5), &|s| s.extra_probes = k_bytes_probes()));
+        reg.add(with(spec("ZiporaTrie[concurrent_high_performance]/bytes", zt(cfg_chp), k_bytes(), false, ALL, 4, 5), &|s| s.extra_probes = k_bytes_probes()));
+        reg.add(with(spec("DoubleArrayTrie/new/bytes", Box::new(dat_new), k_bytes(), false, ALL, 4, 5), &|s| s.extra_probes = k_bytes_probes()));
+        reg.add(with(spec("ZiporaTrie[space_optimized]/set+enum/bytes", zt(ZiporaTrieConfig::space_optimized), k_bytes(), false, SETENUM, 4, 5), &|s| s.extra_probes = k_bytes_probes()));
+
+        // ---- (2) double array: relocation of the ROOT state
+        reg.add(with(spec("ZiporaTrie[concurrent_high_performance]/rootmove", zt(cfg_chp), k_rootmove(), false, ALL, 4, 5), &|s| s.extra_probes = vec![b"xa".to_vec(), b"z".to_vec()]));
+        reg.add(with(spec("DoubleArrayTrie/new/rootmove", Box::new(dat_new), k_rootmove(), false, ALL, 4, 5), &|s| s.extra_probes = vec![b"xa".to_vec(), b"z".to_vec()]));
+
+        // ---- (3) LOUDS record store: keys()/keys_with_prefix on more than one key (the full-oracle LOUDS subject stops at depth 1
+        //          on the `accepts` stub), the 255-byte length limit, keys that look like records
+        reg.add(with(spec("ZiporaTrie[space_optimized]/set+enum", zt(ZiporaTrieConfig::space_optimized), k10(), false, SETENUM, 4, 5), &|_| {}));
+        reg.add(with(spec("ZiporaTrie[space_optimized]/set+enum/len255", zt(ZiporaTrieConfig::space_optimized), k_len255(), false, SETENUM, 3, 4), &|s| {
+            s.extra_probes = vec![vec![b'a'; 253], vec![b'a'; 257]]
+        }));
+        reg.add(with(spec("ZiporaTrie[space_optimized]/set+enum/recordlike", zt(ZiporaTrieConfig::space_optimized), k_recordlike(), false, SETENUM, 4, 5), &|s| {
+            s.extra_probes = vec![b"\x01".to_vec(), b"\x02a".to_vec()]
+        }));
+        // long keys on the other storages as well (Patricia: one 2 KiB node per byte)
+        reg.add(with(spec("ZiporaTrie[concurrent_high_performance]/len255", zt(cfg_chp), k_len255(), false, ALL, 2, 3), &|s| s.extra_probes = vec![vec![b'a'; 253], vec![b'a'; 257]]));
+        reg.add(with(spec("ZiporaTrie[sparse_optimized]/len255", zt(ZiporaTrieConfig::sparse_optimized), k_len255(), false, ALL, 2, 3), &|s| s.extra_probes = vec![vec![b'a'; 253], vec![b'a'; 257]]));
+
+        // ---- (4) start states other than the empty trie: every key of the alphabet already present
+        reg.add(with(spec("ZiporaTrie[default]/prefilled-K10", zt(cfg_default), k10(), true, ALL, 3, 4), &|s| s.prefix = ins_all(&k10())));
+        reg.add(with(spec("ZiporaTrie[cache_optimized]/prefilled-K10", zt(ZiporaTrieConfig::cache_optimized), k10(), true, ALL, 2, 3), &|s| s.prefix = ins_all(&k10())));
+        reg.add(with(spec("ZiporaTrie[concurrent_high_performance]/prefilled-collide", zt(cfg_chp), k10(), false, ALL, 3, 4), &|s| {
+            s.prefix = ins_all(&k_collide());
+            s.extra_probes = k_collide();
+        }));
+        reg.add(with(spec("ZiporaTrie[sparse_optimized]/prefilled-collide", zt(ZiporaTrieConfig::sparse_optimized), k10(), false, ALL, 3, 4), &|s| {
+            s.prefix = ins_all(&k_collide());
+            s.extra_probes = k_collide();
+        }));
+
+        // ---- (5) set-preserving operations of the public API between the inserts/removes: Clone, shrink_to_fit
+        reg.add(with(spec("ZiporaTrie[default]/k4+clone", zt(cfg_default), k4(), true, ALL, 4, 5), &|s| s.with_clone = true));
+        reg.add(with(spec("ZiporaTrie[sparse_optimized]/k4+clone", zt(ZiporaTrieConfig::sparse_optimized), k4(), false, ALL, 4, 6), &|s| s.with_clone = true));
+        reg.add(with(spec("ZiporaTrie[space_optimized]/set+enum/k4+clone", zt(ZiporaTrieConfig::space_optimized), k4(), false, SETENUM, 4, 6), &|s| s.with_clone = true));
+        reg.add(with(spec("ZiporaTrie[concurrent_high_performance]/collide+clone+shrink", zt(cfg_chp), k_collide(), false, ALL, 4, 5), &|s| {
+            s.with_clone = true;
+            s.with_shrink = true;
+        }));
+        reg.add(with(spec("ZiporaTrie[concurrent_high_performance]/K10+shrink", zt(cfg_chp), k10(), false, ALL, 3, 4), &|s| s.with_shrink = true));
+        reg.add(with(spec("DoubleArrayTrie/new/collide+shrink", Box::new(dat_shrink), k_collide(), false, ALL, 4, 5), &|s| s.with_shrink = true));
+
+        // ---- (6) NestedTrieDawg (src/fsa/dawg.rs, an anchor file of C05): implements Trie + FiniteStateAutomaton
+        let dawg_fresh: fn() -> Result<Box<dyn TrieLike>, String> = || NestedTrieDawg::new().map(|d| Box::new(Dawg(d)) as Box<dyn TrieLike>).map_err(|e| e.to_string());
+        let dawg_built_empty: fn() -> Result<Box<dyn TrieLike>, String> = || {
+            let mut d = NestedTrieDawg::new().map_err(|e| e.to_string())?;
+            d.build_from_keys(Vec::<Vec<u8>>::new()).map_err(|e| e.to_string())?;
+            Ok(Box::new(Dawg(d)) as Box<dyn TrieLike>)
+        };
+        let dawg_built: fn() -> Result<Box<dyn TrieLike>, String> = || {
+            let mut d = NestedTrieDawg::new().map_err(|e| e.to_string())?;
+            d.build_from_keys(vec![b"ab".to_vec(), b"cb".to_vec(), b"a".to_vec()]).map_err(|e| e.to_string())?;
+            Ok(Box::new(Dawg(d)) as Box<dyn TrieLike>)
+        };
+        reg.add(with(spec("NestedTrieDawg/new/via-Trie-trait", Box::new(dawg_fresh), k3(), false, ALL, 3, 4), &|_| {}));
+        reg.add(with(spec("NestedTrieDawg/build_from_keys[]/via-Trie-trait", Box::new(dawg_built_empty), k3(), false, ALL, 3, 4), &|_| {}));
+        reg.add(with(
+            spec("NestedTrieDawg/build_from_keys[ab,cb,a]/via-Trie-trait", Box::new(dawg_built), vec![b"abd".to_vec(), b"c".to_vec(), b"cb".to_vec()], false, ALL, 3, 4),
+            &|s| {
+                s.built_with = vec![b"ab".to_vec(), b"cb".to_vec(), b"a".to_vec()];
+                s.extra_probes = vec![b"cbd".to_vec(), b"b".to_vec(), b"".to_vec()];
+            },
+        ));
+
+        // ---- (7) ParallelLoudsTrie bulk entry points
+        reg.add(with(spec("ParallelLoudsTrie/bulk_insert+parallel_contains", Box::new(|| Ok(Box::new(ParBulk(ParallelLoudsTrie::new())) as Box<dyn TrieLike>)), k3(), false, SET, 3, 4), &|_| {}));
     });
 }
